@@ -745,3 +745,552 @@ Proof.
     pose proof (Ha _ Hq) as H1. rewrite Hext in Hq. pose proof (Hb _ Hq) as H2.
     rewrite Nat2Z.id in H1, H2. rewrite H1, H2, Hcell. reflexivity.
 Qed.
+
+(* ------------------------------------------------------------------------------------------ *)
+(** * Slots                                                                                    *)
+(* ------------------------------------------------------------------------------------------ *)
+
+Lemma fname_eqb_eq (a b : fname) : fname_eqb a b = true <-> a = b.
+Proof.
+  destruct a, b; cbn [fname_eqb]; try (split; discriminate);
+    try (rewrite Z.eqb_eq; split; [intros ->; reflexivity|intros H; injection H; auto]).
+  rewrite andb_true_iff, !Z.eqb_eq. split; [intros [-> ->]; reflexivity|intros H; injection H; auto].
+Qed.
+Lemma fname_eqb_refl (a : fname) : fname_eqb a a = true.
+Proof. apply fname_eqb_eq. reflexivity. Qed.
+
+Lemma slot_get_set (s : slots) (f g : fname) (v : value) :
+  slot_get (slot_set s f v) g = if fname_eqb g f then Some v else slot_get s g.
+Proof.
+  induction s as [|[h w] r IH]; cbn [slot_set slot_get]; [reflexivity|].
+  destruct (fname_eqb f h) eqn:E.
+  - apply fname_eqb_eq in E. subst h. cbn [slot_get]. destruct (fname_eqb g f); reflexivity.
+  - cbn [slot_get]. destruct (fname_eqb g h) eqn:E2; [|exact IH].
+    apply fname_eqb_eq in E2. subst h.
+    destruct (fname_eqb g f) eqn:E3; [|reflexivity].
+    apply fname_eqb_eq in E3. subst g. rewrite fname_eqb_refl in E. discriminate E.
+Qed.
+
+Lemma slot_get_in (s : slots) (f : fname) (v : value) : slot_get s f = Some v -> exists g, In (g, v) s.
+Proof.
+  induction s as [|[h w] r IH]; cbn [slot_get]; [discriminate|].
+  destruct (fname_eqb f h).
+  - intros H. injection H as ->. exists h. left. reflexivity.
+  - intros H. destruct (IH H) as [g Hg]. exists g. right. exact Hg.
+Qed.
+
+(* the declared-field slots are the same *)
+Definition fn_same (s s' : slots) : Prop := forall j, slot_get s' (FN j) = slot_get s (FN j).
+Lemma fn_same_refl (s : slots) : fn_same s s.
+Proof. intros j. reflexivity. Qed.
+Lemma fn_same_trans (a b c : slots) : fn_same a b -> fn_same b c -> fn_same a c.
+Proof. intros H1 H2 j. rewrite H2. apply H1. Qed.
+Lemma fn_same_set (s : slots) (g : fname) (v : value) : (forall j, g <> FN j) -> fn_same s (slot_set s g v).
+Proof.
+  intros Hg j. rewrite slot_get_set. destruct (fname_eqb (FN j) g) eqn:E; [|reflexivity].
+  apply fname_eqb_eq in E. exfalso. exact (Hg j (eq_sym E)).
+Qed.
+
+(* ------------------------------------------------------------------------------------------ *)
+(** * Pack: the generic loop on two buffers with the same content and two nested packers       *)
+(* ------------------------------------------------------------------------------------------ *)
+
+Definition kres_equiv (a b : kres) : Prop :=
+  match a, b with
+  | KOk s fr, KOk s' fr' => s = s' /\ feq fr fr' /\ good fr /\ good fr'
+  | KExn _ _, KExn _ _ => True
+  | KFail _, KFail _ => True
+  | KFuel, KFuel => True
+  | _, _ => False
+  end.
+
+Lemma qres_equiv_sym (a b : qres) : qres_equiv a b -> qres_equiv b a.
+Proof. destruct a, b; cbn; auto. intros (-> & H & G1 & G2). split; [reflexivity|]. split; [exact (feq_sym _ _ H)|auto]. Qed.
+Lemma qres_equiv_trans (a b c : qres) : qres_equiv a b -> qres_equiv b c -> qres_equiv a c.
+Proof.
+  destruct a, b, c; cbn; auto; try contradiction.
+  intros (-> & H & G1 & G2) (-> & H' & G1' & G2'). split; [reflexivity|]. split; [exact (feq_trans _ _ _ H H')|auto].
+Qed.
+
+Lemma emit_equiv (s : slots) (fr fr' : frs) (b : bytes) : good fr -> good fr' -> feq fr fr' ->
+  kres_equiv (emit s fr b) (emit s fr' b).
+Proof.
+  intros G G' F. unfold emit, append.
+  assert (Hc : cur fr' = cur fr) by (symmetry; apply F). rewrite Hc.
+  pose proof (insert_feq fr fr' (cur fr) b G G' F ltac:(apply G)) as H.
+  destruct (insert fr (cur fr) b), (insert fr' (cur fr) b); cbn in H |- *; auto; contradiction.
+Qed.
+
+Lemma emit_slots (s : slots) (fr : frs) (b : bytes) (s1 : slots) (fr1 : frs) : emit s fr b = KOk s1 fr1 -> s1 = s.
+Proof. unfold emit. destruct (append fr b); intros H; try discriminate H. injection H; auto. Qed.
+
+Lemma pack_leaf_equiv (hb : bool) (dl : dstate) (cf : lconf) (c : cid) (name : fname) (l : leaf) (s : slots) (fr fr' : frs) :
+  good fr -> good fr' -> feq fr fr' ->
+  kres_equiv (pack_leaf hb dl cf c name l s fr) (pack_leaf hb dl cf c name l s fr').
+Proof.
+  intros G G' F. unfold pack_leaf. destruct (slot_get s name) as [v|]; [|exact I].
+  destruct l as [n sg fe d|size ic d|m incl d|r incl d|d].
+  - destruct (as_int v) as [z|]; [|exact I]. destruct (encode n sg _ z) as [b|]; [|exact I]. apply emit_equiv; assumption.
+  - destruct v; try exact I. apply emit_equiv; assumption.
+  - destruct v; try exact I. apply emit_equiv; assumption.
+  - destruct v; try exact I. apply emit_equiv; assumption.
+  - destruct v; try exact I. apply emit_equiv; assumption.
+Qed.
+
+Lemma pack_leaf_slots (hb : bool) (dl : dstate) (cf : lconf) (c : cid) (name : fname) (l : leaf) (s : slots) (fr : frs)
+      (s1 : slots) (fr1 : frs) : pack_leaf hb dl cf c name l s fr = KOk s1 fr1 -> s1 = s.
+Proof.
+  unfold pack_leaf. destruct (slot_get s name) as [v|]; [|discriminate].
+  destruct l as [n sg fe d|size ic d|m incl d|r incl d|d].
+  - destruct (as_int v) as [z|]; [|discriminate]. destruct (encode n sg _ z) as [b|]; [|discriminate]. apply emit_slots.
+  - destruct v; try discriminate. apply emit_slots.
+  - destruct v; try discriminate. apply emit_slots.
+  - destruct v; try discriminate. apply emit_slots.
+  - destruct v; try discriminate. apply emit_slots.
+Qed.
+
+(* no element ever changes the slots *)
+Lemma pack_elem_slots (hb : bool) (dl : dstate) (rec : cid -> slots -> frs -> qres) (cf : lconf) (c : cid) (name : fname)
+      (e : elem) (s : slots) (fr : frs) (s1 : slots) (fr1 : frs) :
+  pack_elem hb dl rec cf c name e s fr = KOk s1 fr1 -> s1 = s.
+Proof.
+  destruct e as [l|c' pr|sel d]; cbn [pack_elem].
+  - apply pack_leaf_slots.
+  - destruct (slot_get s name) as [[]|]; try discriminate.
+    destruct (rec _ _ fr); intros H; try discriminate H. injection H; auto.
+  - destruct (slot_get s name) as [v|]; [|discriminate].
+    destruct v; try (destruct (eval (pctx s) sel) as [[]|]; try discriminate; apply pack_leaf_slots).
+    destruct (rec _ _ fr); intros H; try discriminate H. injection H; auto.
+Qed.
+
+Section PEquiv.
+Variable hb : bool.
+Variable dl : dstate.
+Variables rec1 rec2 : cid -> slots -> frs -> qres.
+Variable LV : value -> Prop.
+Hypothesis LV_list : forall l v, LV (VList l) -> In v l -> LV v.
+Hypothesis Hrec : forall c ps fr fr', LV (VPkt c ps) -> good fr -> good fr' -> feq fr fr' ->
+  qres_equiv (rec1 c ps fr) (rec2 c ps fr').
+
+Lemma rec_kequiv (s : slots) (c' : cid) (ps : slots) (fr fr' : frs) :
+  LV (VPkt c' ps) -> good fr -> good fr' -> feq fr fr' ->
+  kres_equiv (match rec1 c' ps fr with QOk _ fr1 => KOk s fr1 | QFail st => KFail st | QFuel => KFuel end)
+             (match rec2 c' ps fr' with QOk _ fr1 => KOk s fr1 | QFail st => KFail st | QFuel => KFuel end).
+Proof.
+  intros HL G G' F. pose proof (Hrec c' ps fr fr' HL G G' F) as H.
+  destruct (rec1 c' ps fr), (rec2 c' ps fr'); cbn in H |- *; auto; try contradiction.
+  destruct H as (_ & H). split; [reflexivity|exact H].
+Qed.
+
+Lemma elem_kequiv (cf : lconf) (c : cid) (name : fname) (e : elem) (s : slots) (fr fr' : frs) :
+  (forall c' ps, slot_get s name = Some (VPkt c' ps) -> LV (VPkt c' ps)) ->
+  good fr -> good fr' -> feq fr fr' ->
+  kres_equiv (pack_elem hb dl rec1 cf c name e s fr) (pack_elem hb dl rec2 cf c name e s fr').
+Proof.
+  intros HL G G' F. destruct e as [l|c' pr|sel d]; cbn [pack_elem].
+  - apply pack_leaf_equiv; assumption.
+  - destruct (slot_get s name) as [[]|]; try exact I. apply rec_kequiv; auto.
+  - destruct (slot_get s name) as [v|]; [|exact I].
+    destruct v; try (destruct (eval (pctx s) sel) as [[]|]; try exact I; apply pack_leaf_equiv; assumption).
+    apply rec_kequiv; auto.
+Qed.
+
+Lemma seq_kequiv (cf : lconf) (c : cid) (i : Z) (e : elem) (al : Z) : forall (vs : list value) (s : slots) (fr fr' : frs),
+  (forall v, In v vs -> LV v) -> good fr -> good fr' -> feq fr fr' ->
+  kres_equiv (pack_seq hb dl rec1 cf c i e al vs s fr) (pack_seq hb dl rec2 cf c i e al vs s fr').
+Proof.
+  induction vs as [|v r IH]; intros s fr fr' HL G G' F; cbn [pack_seq]; cbv zeta.
+  - cbn. auto.
+  - assert (Hc : cur fr' = cur fr) by (symmetry; apply F). rewrite Hc.
+    destruct (seq_align al (cur fr)) as [p|] eqn:Ea; [|exact I].
+    assert (Hp : 0 <= p) by (apply (seq_align_nn al (cur fr) p); [apply G|exact Ea]).
+    pose proof (elem_kequiv cf c (FSeqElem i) e (slot_set s (FSeqElem i) v) (set_cur fr p) (set_cur fr' p)) as H.
+    specialize (H ltac:(intros c' ps; rewrite slot_get_set, fname_eqb_refl; intros Hv; injection Hv as <-; apply HL; left; reflexivity)
+                  (good_set_cur _ _ G Hp) (good_set_cur _ _ G' Hp) (feq_set_cur _ _ p F)).
+    destruct (pack_elem hb dl rec1 cf c (FSeqElem i) e _ (set_cur fr p)) as [s2 fr2| | |],
+             (pack_elem hb dl rec2 cf c (FSeqElem i) e _ (set_cur fr' p)) as [s2' fr2'| | |];
+      cbn in H |- *; auto; try contradiction.
+    destruct H as (<- & F2 & G2 & G2'). apply IH; auto. intros w Hw. apply HL. right. exact Hw.
+Qed.
+
+Lemma field_kequiv (cf : lconf) (c : cid) (f : cfield) (s : slots) (fr fr' : frs) (ipp : Z) :
+  (forall j v, slot_get s (FN j) = Some v -> LV v) -> good fr -> good fr' -> feq fr fr' ->
+  kres_equiv (pack_field hb dl rec1 cf c f s fr ipp) (pack_field hb dl rec2 cf c f s fr' ipp).
+Proof.
+  intros HL G G' F. assert (Hc : cur fr' = cur fr) by (symmetry; apply F).
+  destruct f as [i arg rf al|i e|i first last run0 shift mask nbytes d|i e cnt unt whn d al|i e whn d|i];
+    cbn [pack_field].
+  - rewrite Hc. destruct (match arg with MConst z => Ok z | MField g => _ | MFun e => _ end) as [z|x]; [|exact I].
+    destruct (move_pack al rf z (cur fr) ipp) as [p|] eqn:Em; [|exact I].
+    assert (Hp : 0 <= p) by exact (move_nonneg _ _ _ _ _ _ Em).
+    cbn. split; [reflexivity|]. split; [apply feq_set_cur; exact F|]. split; apply good_set_cur; assumption.
+  - apply elem_kequiv; auto. intros c' ps Hs. exact (HL _ _ Hs).
+  - destruct (slot_get s (FBitsI run0)) as [iv0|]; [|exact I]. destruct (slot_get s (FN i)) as [v|]; [|exact I].
+    destruct (as_int iv0) as [iv|]; [|exact I]. destruct (as_int v) as [z|]; [|exact I]. cbv zeta.
+    destruct last; [|cbn; auto].
+    destruct (encode nbytes false true _) as [b|]; [|exact I]. apply emit_equiv; assumption.
+  - destruct (slot_get s (FN i)) as [v|] eqn:Es; [|exact I]. destruct v; try exact I.
+    apply seq_kequiv; auto. intros v Hv. apply (LV_list l); [exact (HL _ _ Es)|exact Hv].
+  - destruct (slot_get s (FN i)) as [v|] eqn:Es; [|exact I].
+    assert (Hgen : kres_equiv (pack_elem hb dl rec1 cf c (FOptElem i) e (slot_set s (FOptElem i) v) fr)
+                              (pack_elem hb dl rec2 cf c (FOptElem i) e (slot_set s (FOptElem i) v) fr')).
+    { apply elem_kequiv; auto. intros c' ps. rewrite slot_get_set, fname_eqb_refl. intros Hv. injection Hv as <-.
+      exact (HL _ _ Es). }
+    destruct v; try exact Hgen. cbn. auto.
+  - apply emit_equiv; assumption.
+Qed.
+End PEquiv.
+
+(* the declared-field slots are never written by pack *)
+Lemma seq_fn (hb : bool) (dl : dstate) (rec : cid -> slots -> frs -> qres) (cf : lconf) (c : cid) (i : Z) (e : elem) (al : Z) :
+  forall (vs : list value) (s : slots) (fr : frs) (s' : slots) (fr1 : frs),
+  pack_seq hb dl rec cf c i e al vs s fr = KOk s' fr1 -> fn_same s s'.
+Proof.
+  induction vs as [|v r IH]; intros s fr s' fr1; cbn [pack_seq]; cbv zeta.
+  - intros H. injection H as <- _. apply fn_same_refl.
+  - destruct (seq_align al (cur fr)) as [p|]; [|discriminate].
+    destruct (pack_elem hb dl rec cf c (FSeqElem i) e (slot_set s (FSeqElem i) v) (set_cur fr p)) as [s2 fr2| | |] eqn:E;
+      try discriminate.
+    apply pack_elem_slots in E. subst s2. intros H. apply IH in H.
+    eapply fn_same_trans; [|exact H]. apply fn_same_set. discriminate.
+Qed.
+
+Lemma field_fn (hb : bool) (dl : dstate) (rec : cid -> slots -> frs -> qres) (cf : lconf) (c : cid) (f : cfield)
+      (s : slots) (fr : frs) (ipp : Z) (s1 : slots) (fr1 : frs) :
+  pack_field hb dl rec cf c f s fr ipp = KOk s1 fr1 -> fn_same s s1.
+Proof.
+  destruct f as [i arg rf al|i e|i first last run0 shift mask nbytes d|i e cnt unt whn d al|i e whn d|i];
+    cbn [pack_field].
+  - destruct (match arg with MConst z => Ok z | MField g => _ | MFun e => _ end) as [z|x]; [|discriminate].
+    destruct (move_pack al rf z (cur fr) ipp) as [p|]; [|discriminate].
+    intros H. injection H as <- _. apply fn_same_refl.
+  - intros H. apply pack_elem_slots in H. subst s1. apply fn_same_refl.
+  - destruct (slot_get s (FBitsI run0)) as [iv0|]; [|discriminate]. destruct (slot_get s (FN i)) as [v|]; [|discriminate].
+    destruct (as_int iv0) as [iv|]; [|discriminate]. destruct (as_int v) as [z|]; [|discriminate]. cbv zeta.
+    destruct last.
+    + destruct (encode nbytes false true _) as [b|]; [|discriminate]. intros H. apply emit_slots in H. subst s1.
+      apply fn_same_set. discriminate.
+    + intros H. injection H as <- _. apply fn_same_set. discriminate.
+  - destruct (slot_get s (FN i)) as [v|]; [|discriminate]. destruct v; try discriminate. apply seq_fn.
+  - destruct (slot_get s (FN i)) as [v|]; [|discriminate].
+    assert (Hgen : pack_elem hb dl rec cf c (FOptElem i) e (slot_set s (FOptElem i) v) fr = KOk s1 fr1 -> fn_same s s1).
+    { intros H. apply pack_elem_slots in H. subst s1. apply fn_same_set. discriminate. }
+    destruct v; try exact Hgen. intros H. injection H as <- _. apply fn_same_refl.
+  - intros H. apply emit_slots in H. subst s1. apply fn_same_refl.
+Qed.
+
+(* ------------------------------------------------------------------------------------------ *)
+(** * Pack: one struct run against its members                                                 *)
+(* ------------------------------------------------------------------------------------------ *)
+
+(* what StructPack computes for one member *)
+Definition mchunk (m : smember) (s : slots) : res bytes :=
+  match slot_get s (FN (sm_index m)) with
+  | None => Exn AttributeError
+  | Some v =>
+      match m with
+      | SMInt _ n sg big =>
+          match as_int v with
+          | Some x => match encode n sg big x with Some b => Ok b | None => Exn StructError end
+          | None => Exn StructError
+          end
+      | SMData _ n => match v with VBytes b => Ok (pad_to n b) | _ => Exn StructError end
+      end
+  end.
+Fixpoint chunks (ms : list smember) (s : slots) : res (list bytes) :=
+  match ms with
+  | [] => Ok []
+  | m :: r => do b <- mchunk m s; do bs <- chunks r s; Ok (b :: bs)
+  end.
+
+Lemma struct_pack_chunks (s : slots) : forall ms, struct_pack ms s = do bs <- chunks ms s; Ok (concat bs).
+Proof.
+  induction ms as [|m r IH]; [reflexivity|]. cbn [struct_pack chunks]. unfold mchunk.
+  destruct (slot_get s (FN (sm_index m))) as [v|]; [|reflexivity].
+  destruct (match m with SMInt _ n sg big => _ | SMData _ n => _ end) as [b|x]; [|reflexivity].
+  cbn [bind]. rewrite IH. destruct (chunks r s) as [bs|x]; reflexivity.
+Qed.
+
+Lemma chunks_nonempty (s : slots) (ms : list smember) (bs : list bytes) : chunks ms s = Ok bs -> ms <> [] -> bs <> [].
+Proof.
+  destruct ms as [|m r]; [congruence|]. cbn [chunks]. intros H _.
+  destruct (mchunk m s) as [b|]; [|discriminate H]. cbn [bind] in H.
+  destruct (chunks r s) as [bs'|]; [|discriminate H]. cbn [bind] in H. injection H as <-. discriminate.
+Qed.
+
+Lemma pad_to_id (n : Z) (b : bytes) : blen b = n -> pad_to n b = b.
+Proof.
+  intros <-. unfold pad_to. rewrite slice_0. unfold blen. rewrite Nat2Z.id. apply firstn_len_app.
+Qed.
+
+(* the exclusion of finding D11 for one field: a Data(n) holds exactly n bytes *)
+Definition dcond (s : slots) (f : cfield) : Prop :=
+  forall i n d b, f = CElem i (ELeafE (LDataSized (ELit (VInt n)) true d)) -> slot_get s (FN i) = Some (VBytes b) -> blen b = n.
+
+Lemma dcond_fn (s s1 : slots) (f : cfield) : fn_same s s1 -> dcond s f -> dcond s1 f.
+Proof. intros Hs H i n d b E G. rewrite Hs in G. exact (H i n d b E G). Qed.
+
+Lemma member_pack (hb : bool) (dl : dstate) (rec : cid -> slots -> frs -> qres) (cf : lconf) (c : cid)
+      (f : cfield) (m : smember) (s : slots) (fr : frs) (ipp : Z) :
+  fixity_of hb cf f = FStruct m -> dcond s f ->
+  match mchunk m s with
+  | Ok b => pack_field hb dl rec cf c f s fr ipp = emit s fr b
+  | Exn _ => exists e, pack_field hb dl rec cf c f s fr ipp = KExn e (cur fr)
+  end.
+Proof.
+  intros Hfx Hd.
+  destruct (fixity_struct_inv _ _ _ _ Hfx) as [(i & n & sg & fe & d & -> & Hc & ->)|(i & n & d & -> & ->)];
+    unfold mchunk; cbn [sm_index pack_field pack_elem]; unfold pack_leaf.
+  - destruct (slot_get s (FN i)) as [v|]; [|eauto]. destruct (as_int v) as [z|]; [|eauto].
+    destruct (encode n sg _ z) as [b|]; [reflexivity|eauto].
+  - destruct (slot_get s (FN i)) as [v|] eqn:Es; [|eauto].
+    destruct v; try (eexists; reflexivity).
+    rewrite pad_to_id by (eapply Hd; [reflexivity|exact Es]). unfold data_pack. rewrite app_nil_r. reflexivity.
+Qed.
+
+(* the generic loop over the members = `extend` over their chunks *)
+Lemma run_pack_chunks (hb : bool) (dl : dstate) (rec : cid -> slots -> frs -> qres) (cf : lconf) (c : cid) (ipp : Z)
+      (s : slots) (fs : list cfield) :
+  forall (pf : list cfield) (ms : list smember), Forall2 (fun f m => fixity_of hb cf f = FStruct m) pf ms ->
+  Forall (dcond s) pf -> forall fr : frs,
+  match chunks ms s with
+  | Exn _ => exists st, pack_fields hb dl rec cf c (pf ++ fs) s fr ipp = QFail st
+  | Ok bs =>
+      match extend fr bs with
+      | Frag.Ok fr1 => pack_fields hb dl rec cf c (pf ++ fs) s fr ipp = pack_fields hb dl rec cf c fs s fr1 ipp
+      | _ => exists st, pack_fields hb dl rec cf c (pf ++ fs) s fr ipp = QFail st
+      end
+  end.
+Proof.
+  intros pf ms H. induction H as [|f m pf ms Hfx HR IH]; intros Hd fr.
+  - cbn [chunks extend app]. reflexivity.
+  - inversion Hd as [|f0 pf0 Hdf Hdr]; subst f0 pf0. specialize (IH Hdr).
+    cbn [chunks app pack_fields].
+    pose proof (member_pack hb dl rec cf c f m s fr ipp Hfx Hdf) as Hm.
+    destruct (mchunk m s) as [b|x]; cbn [bind].
+    + rewrite Hm. unfold emit, append. cbn [extend].
+      destruct (chunks ms s) as [bs|x] eqn:Ec; cbn [bind].
+      * cbn [extend]. destruct (insert fr (cur fr) b) as [fr1| |]; [exact (IH fr1)|eauto|eauto].
+      * destruct (insert fr (cur fr) b) as [fr1| |]; [exact (IH fr1)|eauto|eauto].
+    + destruct Hm as [e ->]. eauto.
+Qed.
+
+(* ------------------------------------------------------------------------------------------ *)
+(** * Pack: blocks against fields                                                              *)
+(* ------------------------------------------------------------------------------------------ *)
+
+Section PRun.
+Variable hb : bool.
+Variable dl : dstate.
+Variables rec1 rec2 : cid -> slots -> frs -> qres.
+Variable LV : value -> Prop.
+Hypothesis LV_list : forall l v, LV (VList l) -> In v l -> LV v.
+Hypothesis Hrec : forall c ps fr fr', LV (VPkt c ps) -> good fr -> good fr' -> feq fr fr' ->
+  qres_equiv (rec1 c ps fr) (rec2 c ps fr').
+Variable cf : lconf.
+Variable c : cid.
+Variable ipp : Z.
+Variable allfields : list cfield.
+
+(* what is known of the slots all along: nested values are fine, Data(n) fields hold n bytes *)
+Definition Iv (s : slots) : Prop :=
+  (forall j v, slot_get s (FN j) = Some v -> LV v) /\ Forall (dcond s) allfields.
+
+Lemma Iv_fn (s s1 : slots) : fn_same s s1 -> Iv s -> Iv s1.
+Proof.
+  intros Hs [H1 H2]. split.
+  - intros j v G. rewrite Hs in G. exact (H1 j v G).
+  - apply Forall_forall. intros f Hin. rewrite Forall_forall in H2. exact (dcond_fn _ _ _ Hs (H2 f Hin)).
+Qed.
+
+Definition PP (bs : list block) (fs : list cfield) : Prop :=
+  forall s fr fr', Iv s -> good fr -> good fr' -> feq fr fr' ->
+    qres_equiv (pack_blocks hb dl rec1 cf c bs s fr ipp) (pack_fields hb dl rec2 cf c fs s fr' ipp).
+
+Lemma PP_nil : PP [] [].
+Proof. intros s fr fr' _ G G' F. cbn. auto. Qed.
+
+Lemma PP_loop (f : cfield) (rest : list block) (fs : list cfield) : PP rest fs -> PP (BLoop f :: rest) (f :: fs).
+Proof.
+  intros H s fr fr' HI G G' F. cbn [pack_blocks pack_fields].
+  pose proof (field_kequiv hb dl rec1 rec2 LV LV_list Hrec cf c f s fr fr' ipp (proj1 HI) G G' F) as Hk.
+  destruct (pack_field hb dl rec1 cf c f s fr ipp) as [s1 fr1| | |] eqn:E1,
+           (pack_field hb dl rec2 cf c f s fr' ipp) as [s1' fr1'| | |]; cbn in Hk |- *; auto; try contradiction.
+  destruct Hk as (<- & F1 & G1 & G1'). apply H; auto. exact (Iv_fn _ _ (field_fn _ _ _ _ _ _ _ _ _ _ _ E1) HI).
+Qed.
+
+Lemma FF : forall (fs : list cfield) s fr fr', Iv s -> good fr -> good fr' -> feq fr fr' ->
+  qres_equiv (pack_fields hb dl rec1 cf c fs s fr ipp) (pack_fields hb dl rec2 cf c fs s fr' ipp).
+Proof.
+  induction fs as [|f r IH]; intros s fr fr' HI G G' F; cbn [pack_fields].
+  - cbn. auto.
+  - pose proof (field_kequiv hb dl rec1 rec2 LV LV_list Hrec cf c f s fr fr' ipp (proj1 HI) G G' F) as Hk.
+    destruct (pack_field hb dl rec1 cf c f s fr ipp) as [s1 fr1| | |] eqn:E1,
+             (pack_field hb dl rec2 cf c f s fr' ipp) as [s1' fr1'| | |]; cbn in Hk |- *; auto; try contradiction.
+    destruct Hk as (<- & F1 & G1 & G1'). apply IH; auto. exact (Iv_fn _ _ (field_fn _ _ _ _ _ _ _ _ _ _ _ E1) HI).
+Qed.
+
+Lemma PP_run (b : bool) (pf : list cfield) (ms : list smember) (rest : list block) (fs : list cfield) :
+  pf <> [] -> Forall (fun f => In f allfields) pf -> Forall2 (fun f m => fixity_of hb cf f = FStruct m) pf ms ->
+  PP rest fs -> PP (BStruct b ms :: rest) (pf ++ fs).
+Proof.
+  intros Hne Hin HR H s fr fr' HI G G' F. cbn [pack_blocks]. rewrite struct_pack_chunks.
+  assert (Hd : Forall (dcond s) pf).
+  { destruct HI as [_ HD]. rewrite Forall_forall in HD, Hin |- *. intros f Hf. exact (HD f (Hin f Hf)). }
+  pose proof (run_pack_chunks hb dl rec2 cf c ipp s fs pf ms HR Hd fr') as Hrun.
+  destruct (chunks ms s) as [bs|x] eqn:Ec; cbn [bind].
+  - assert (Hbs : bs <> []).
+    { apply (chunks_nonempty s ms bs Ec). intros ->. inversion HR. subst pf. congruence. }
+    pose proof (extend_concat bs Hbs fr fr' G G' F) as He.
+    destruct (append fr (concat bs)) as [fr1| |], (extend fr' bs) as [fr1'| |]; cbn in He; try contradiction.
+    + rewrite Hrun. destruct He as (F1 & G1 & G1'). apply H; auto.
+    + destruct Hrun as [st ->]. exact I.
+  - destruct Hrun as [st ->]. exact I.
+Qed.
+
+Lemma PP_gen (vec : bool) (fs : list cfield) : Forall (fun f => In f allfields) fs -> PP (gen_blocks hb cf vec fs None) fs.
+Proof.
+  intros Hs.
+  apply (gen_blocks_rel hb cf (fun f => In f allfields) PP PP_nil); [| |exact Hs].
+  - intros f rest fs' _. apply PP_loop.
+  - intros b pf ms rest fs'. apply PP_run.
+Qed.
+End PRun.
+
+(* ------------------------------------------------------------------------------------------ *)
+(** * Pack: any two option settings                                                            *)
+(* ------------------------------------------------------------------------------------------ *)
+
+Definition prun (hb : bool) (dl : dstate) (rec : cid -> slots -> frs -> qres) (gen vec : bool) (cf : lconf) (c : cid)
+           (fs : list cfield) (s : slots) (fr : frs) : qres :=
+  if gen then pack_blocks hb dl rec cf c (gen_blocks hb cf vec fs None) s fr (cur fr)
+  else pack_fields hb dl rec cf c fs s fr (cur fr).
+
+Lemma in_self {A : Type} (l : list A) : Forall (fun x => In x l) l.
+Proof. apply Forall_forall. auto. Qed.
+
+Lemma prun_equiv (hb : bool) (dl : dstate) (rec1 rec2 : cid -> slots -> frs -> qres) (LV : value -> Prop)
+      (g1 v1 g2 v2 : bool) (cf : lconf) (c : cid) (fs : list cfield) (s : slots) (fr fr' : frs) :
+  (forall l v, LV (VList l) -> In v l -> LV v) ->
+  (forall c ps fr fr', LV (VPkt c ps) -> good fr -> good fr' -> feq fr fr' -> qres_equiv (rec1 c ps fr) (rec2 c ps fr')) ->
+  Iv LV fs s -> good fr -> good fr' -> feq fr fr' ->
+  qres_equiv (prun hb dl rec1 g1 v1 cf c fs s fr) (prun hb dl rec2 g2 v2 cf c fs s fr').
+Proof.
+  intros LV_list Hrec HI G G' F.
+  assert (Hrec21 : forall c ps fr fr', LV (VPkt c ps) -> good fr -> good fr' -> feq fr fr' ->
+                                       qres_equiv (rec2 c ps fr) (rec1 c ps fr')).
+  { intros c0 ps a b HL Ga Gb Fab. apply qres_equiv_sym. apply Hrec; auto. apply feq_sym. exact Fab. }
+  assert (Hrec22 : forall c ps fr fr', LV (VPkt c ps) -> good fr -> good fr' -> feq fr fr' ->
+                                       qres_equiv (rec2 c ps fr) (rec2 c ps fr')).
+  { intros c0 ps a b HL Ga Gb Fab. eapply qres_equiv_trans; [apply (Hrec21 c0 ps a a HL Ga Ga (feq_refl a))|].
+    apply Hrec; auto. }
+  assert (Hc : cur fr' = cur fr) by (symmetry; apply F).
+  unfold prun. rewrite Hc. destruct g1, g2.
+  - eapply qres_equiv_trans.
+    + apply (PP_gen hb dl rec1 rec2 LV LV_list Hrec cf c (cur fr) fs v1 fs (in_self fs) s fr fr' HI G G' F).
+    + apply qres_equiv_sym.
+      apply (PP_gen hb dl rec2 rec2 LV LV_list Hrec22 cf c (cur fr) fs v2 fs (in_self fs) s fr' fr' HI G' G' (feq_refl fr')).
+  - apply (PP_gen hb dl rec1 rec2 LV LV_list Hrec cf c (cur fr) fs v1 fs (in_self fs) s fr fr' HI G G' F).
+  - apply qres_equiv_sym.
+    apply (PP_gen hb dl rec2 rec1 LV LV_list Hrec21 cf c (cur fr) fs v2 fs (in_self fs) s fr' fr HI G' G (feq_sym _ _ F)).
+  - apply (FF hb dl rec1 rec2 LV LV_list Hrec cf c (cur fr) fs fs s fr fr' HI G G' F).
+Qed.
+
+(* ---- lens_ok ---- *)
+Lemma lens_ok_S (f : nat) (ct : ctab) (v : value) :
+  lens_ok (S f) ct v =
+  match v with
+  | VPkt c s =>
+      match ct_get ct c with
+      | None => false
+      | Some k =>
+          forallb (fun cf => match cf with
+                             | CElem i (ELeafE (LDataSized (ELit (VInt n)) true _)) =>
+                                 match slot_get s (FN i) with Some (VBytes b) => blen b =? n | _ => true end
+                             | _ => true
+                             end) (cc_fields k)
+          && forallb (fun fv => lens_ok f ct (snd fv)) s
+      end
+  | VList l => forallb (lens_ok f ct) l
+  | _ => true
+  end.
+Proof. reflexivity. Qed.
+
+Lemma lens_ok_mono (ct : ctab) : forall f v, lens_ok f ct v = true -> lens_ok (S f) ct v = true.
+Proof.
+  induction f as [|f IH]; intros v H; [discriminate H|].
+  rewrite lens_ok_S in H. rewrite (lens_ok_S (S f)).
+  destruct v; try reflexivity.
+  - rewrite forallb_forall in H |- *. intros x Hx. apply IH. exact (H x Hx).
+  - destruct (ct_get ct c) as [k|]; [|discriminate H]. apply andb_true_iff in H. destruct H as [H1 H2].
+    apply andb_true_iff. split; [exact H1|]. rewrite forallb_forall in H2 |- *. intros x Hx. apply IH. exact (H2 x Hx).
+Qed.
+
+Lemma lens_ok_list (ct : ctab) (f : nat) (l : list value) (v : value) :
+  lens_ok f ct (VList l) = true -> In v l -> lens_ok f ct v = true.
+Proof.
+  destruct f as [|f]; [discriminate|]. rewrite lens_ok_S. intros H Hin. rewrite forallb_forall in H.
+  apply lens_ok_mono. exact (H v Hin).
+Qed.
+
+Lemma lens_ok_Iv (ct : ctab) (f : nat) (c : cid) (s : slots) (k : cclass) :
+  lens_ok (S f) ct (VPkt c s) = true -> ct_get ct c = Some k ->
+  Iv (fun v => lens_ok f ct v = true) (cc_fields k) s.
+Proof.
+  rewrite lens_ok_S. intros H G. rewrite G in H. apply andb_true_iff in H. destruct H as [H1 H2].
+  rewrite forallb_forall in H1, H2. split.
+  - intros j v Hs. destruct (slot_get_in _ _ _ Hs) as [g Hg]. exact (H2 _ Hg).
+  - apply Forall_forall. intros x Hx i n d b -> Hs. specialize (H1 _ Hx). cbn beta iota in H1.
+    rewrite Hs in H1. apply Z.eqb_eq. exact H1.
+Qed.
+
+Lemma pack_any_prun (fuel : nat) (hb : bool) (dl : dstate) (ct : ctab) (c : cid) (s : slots) (fr : frs) :
+  pack_any (S fuel) hb dl ct c s fr =
+  match ct_get ct c with
+  | None => QFuel
+  | Some k => prun hb dl (pack_any fuel hb dl ct) (cc_gen_pack k) (cc_vectorize k) (cc_conf k) c (cc_fields k) s fr
+  end.
+Proof. reflexivity. Qed.
+
+(* ct_wf is not needed: seq_align keeps a non-negative cursor non-negative whatever the alignment is *)
+Theorem pack_codegen_equiv : forall fuel host dl ct ct' c s fr fr',
+  same_decls ct ct' -> ct_wf ct = true -> ct_sizes_ok ct = true -> lens_ok fuel ct (VPkt c s) = true ->
+  good fr -> good fr' -> feq fr fr' ->
+  qres_equiv (pack_any fuel host dl ct c s fr) (pack_any fuel host dl ct' c s fr').
+Proof.
+  induction fuel as [|fuel IH]; intros host dl ct ct' c s fr fr' Hsd Hwf Hs HL G G' F.
+  - cbn. auto.
+  - rewrite !pack_any_prun. pose proof (same_decls_get ct ct' c Hsd) as Hg.
+    destruct (ct_get ct c) as [k|] eqn:Gk, (ct_get ct' c) as [k'|]; try contradiction; [|cbn; auto].
+    destruct Hg as (<- & <-).
+    apply (prun_equiv host dl (pack_any fuel host dl ct) (pack_any fuel host dl ct') (fun v => lens_ok fuel ct v = true)).
+    + intros l v. apply lens_ok_list.
+    + intros c0 ps a b HL0 Ga Gb Fab. apply IH; assumption.
+    + exact (lens_ok_Iv ct fuel c s k HL Gk).
+    + exact G.
+    + exact G'.
+    + exact F.
+Qed.
+
+(* Packet.pack(): same bytes or both fail, whatever the four options are *)
+Theorem pack_top_codegen_equiv : forall fuel host dl ct ct' c s,
+  same_decls ct ct' -> ct_wf ct = true -> ct_sizes_ok ct = true -> lens_ok fuel ct (VPkt c s) = true ->
+  match pack_any_top fuel host dl ct c s, pack_any_top fuel host dl ct' c s with
+  | PBytes b v, PBytes b' v' => b = b' /\ v = v'
+  | PErr _, PErr _ => True
+  | PNoFuel, PNoFuel => True
+  | _, _ => False
+  end.
+Proof.
+  intros fuel host dl ct ct' c s Hsd Hwf Hs HL. unfold pack_any_top.
+  pose proof (pack_codegen_equiv fuel host dl ct ct' c s empty empty Hsd Hwf Hs HL good_empty good_empty (feq_refl empty)) as H.
+  destruct (pack_any fuel host dl ct c s empty) as [v fr| |], (pack_any fuel host dl ct' c s empty) as [v' fr'| |];
+    cbn in H; try contradiction; auto.
+  destruct H as (-> & F & G & G'). split; [|reflexivity]. apply feq_tobytes; assumption.
+Qed.
+
+Print Assumptions unpack_codegen_equiv.
+Print Assumptions unpack_any_generic.
+Print Assumptions pack_codegen_equiv.
+Print Assumptions feq_tobytes.
+Print Assumptions pack_top_codegen_equiv.
